@@ -158,6 +158,18 @@ func (p *Processor) ChargingDataCreate(
 		return nil, "", problemDetails
 	}
 
+	if !chargingData.OneTimeEvent && strings.Contains(chargingData.NfConsumerIdentification.NFName, "/") {
+		// the session reference is built from the consumer's name and is the last element of the session's resource
+		// URI: with a path separator in it no update or release could ever name the session
+		logger.ChargingdataPostLog.Errorf("nFName %q cannot be part of a charging session reference",
+			chargingData.NfConsumerIdentification.NFName)
+		problemDetails := &models.ProblemDetails{
+			Status: http.StatusBadRequest,
+			Cause:  "INVALID_MSG_FORMAT",
+		}
+		return nil, "", problemDetails
+	}
+
 	// Open CDR
 	// ChargingDataRef(charging session id):
 	// A unique identifier for a charging data resource in a PLMN
